@@ -179,6 +179,12 @@ Section Crash.
     | OSnapshot => [CacheSet a; Mut true (MSnap a)]
     end.
 
+  (** The record of a rejected command written best effort: NOT what store.rs:418-424 does (there the error of
+      the store ends the call before the cache update at 493-495). Kept as a regression witness only. *)
+  Definition steps_rejected_best_effort (s : sys) : list step :=
+    let a := load (s_log s) in
+    [Mut false (MCmd (a_ver S a) SError); CacheSet (apply_stored S Ev apply a SError)].
+
   Definition muts_of (st : list step) : list mutation :=
     flat_map (fun x => match x with Mut _ m => [m] | CacheSet _ => [] end) st.
   Definition trace_shape (s : sys) (o : op) : list shape := map shape_of (muts_of (steps_of s o)).
@@ -285,6 +291,21 @@ Definition wal_apply (w : wal) (m : wmut) : wal :=
 Definition wal_command_trace (w : wal) : list wmut := [WSet (wal_load w)].
 Definition wal_snapshot_trace (w : wal) : list wmut := WSnap (wal_load w) :: map WDel (w_sets w).
 Definition wal_run (w : wal) (l : list wmut) : wal := fold_left wal_apply l w.
+(** The snapshot update with its two parts swapped: the change sets are removed first, the snapshot is stored
+    last (NOT the order of wal.rs:399-414; kept as the regression witness of that order). *)
+Definition wal_snapshot_trace_swapped (w : wal) : list wmut := map WDel (w_sets w) ++ [WSnap (wal_load w)].
+(** One failing write in a snapshot update: every mutation of it is followed by `?` (wal.rs:401-412), so
+    mutation number n has no effect and nothing after it runs; the update runs in a WalStore of its own
+    (scheduler.rs:557-583), the error is logged and the daemon goes on. *)
+Fixpoint wal_fail_at (n : nat) (l : list wmut) (w : wal) : wal :=
+  match l, n with
+  | [], _ => w
+  | _ :: _, Datatypes.O => w
+  | m :: r, Datatypes.S n' => wal_fail_at n' r (wal_apply w m)
+  end.
+(** A change set is acknowledged once its command returned: every revision below the loaded one. A stored
+    state [w'] still holds everything acknowledged in [w] iff it loads at least that revision. *)
+Definition wal_keeps_acknowledged (w w' : wal) : Prop := wal_load w <= wal_load w'.
 
 (** * The rsync tree switch (rsync.rs:72-156). A directory is present with some content or absent. *)
 Record rsyncd := mkRs { r_tmp : option N; r_current : option N; r_old : option N }.
